@@ -25,7 +25,7 @@ type BodyCase struct {
 	Var  string `json:"var"`
 }
 
-const bodyRule = "bodies: 55 body templates (42 native, 13 JSON; 10 of them put the marked value inside a constructor decoded against 8 typed attribute specs whose conversion changes the structure: object->map, tuple->set/list, nested) (attributes, static blocks with and without labels, dynamic blocks whose for_each / labels / content / iterator use the marked variable, static and dynamic blocks nested in dynamic content) x 5 marked variables x every hcldec block spec kind (Attr, Block, BlockList, BlockSet, BlockTuple, BlockMap, BlockObject, BlockAttrs; nested block specs one level down) x all pairs of contents incl. unknown, each once with all other variables unmarked and once with every other variable carrying a different mark (the result must carry the marked variable's own mark); decoded with dynblock.Expand + hcldec.Decode, and in two steps (hcldec.PartialDecode of an unrelated attribute, then Decode of the remaining body); contents include typed nulls (DefaultSpec)"
+const bodyRule = "bodies: 58 body templates (45 native, 13 JSON; 10 of them put the marked value inside a constructor decoded against 8 typed attribute specs whose conversion changes the structure: object->map, tuple->set/list, nested) (attributes, static blocks with and without labels, dynamic blocks whose for_each / labels / content / iterator use the marked variable, static and dynamic blocks nested in dynamic content) x 5 marked variables x every hcldec block spec kind (Attr, Block, BlockList, BlockSet, BlockTuple, BlockMap, BlockObject, BlockAttrs; nested block specs one level down) x all pairs of contents incl. unknown, each once with all other variables unmarked and once with every other variable carrying a different mark (the result must carry the marked variable's own mark); decoded with dynblock.Expand + hcldec.Decode, and in two steps (hcldec.PartialDecode of an unrelated attribute, then Decode of the remaining body); contents include typed nulls (DefaultSpec)"
 
 var attrA = &hcldec.AttrSpec{Name: "a", Type: cty.DynamicPseudoType}
 
@@ -106,6 +106,10 @@ var templates = []tmpl{
 	{text: "dynamic \"b\" {\n  for_each = [\"p\", \"q\"]\n  content {\n    a = X\n  }\n}\n"},
 	{text: "dynamic \"b\" {\n  for_each = X\n  iterator = it\n  content {\n    a = it.value\n  }\n}\n"},
 	{text: "b {\n  a = 0\n}\ndynamic \"b\" {\n  for_each = X\n  content {\n    a = 1\n  }\n}\n"},
+	// two dynamic blocks of one type: an unmarked for_each first, the marked one second (and the reverse)
+	{text: "dynamic \"b\" {\n  for_each = [\"p\"]\n  content {\n    a = 0\n  }\n}\ndynamic \"b\" {\n  for_each = X\n  content {\n    a = 1\n  }\n}\n"},
+	{text: "dynamic \"b\" {\n  for_each = [\"p\"]\n  content {\n    a = b.value\n  }\n}\ndynamic \"b\" {\n  for_each = X\n  content {\n    a = b.value\n  }\n}\n"},
+	{text: "dynamic \"b\" {\n  for_each = X\n  content {\n    a = 1\n  }\n}\ndynamic \"b\" {\n  for_each = [\"p\"]\n  content {\n    a = 0\n  }\n}\n"},
 	{text: "dynamic \"b\" {\n  for_each = X\n  labels = [\"l\"]\n  content {\n    a = b.value\n  }\n}\n", labels: true},
 	{text: "dynamic \"b\" {\n  for_each = [\"p\"]\n  labels = [X]\n  content {\n    a = 1\n  }\n}\n", labels: true},
 	{text: "dynamic \"b\" {\n  for_each = X\n  labels = [b.key]\n  content {\n    a = 1\n  }\n}\n", labels: true},
